@@ -415,27 +415,8 @@ _saved_globals = None
 
 
 def restore_globals() -> None:
-    """Best effort: put damaged module constants back so that one violation does not poison the worker."""
-    # the snapshot holds the bytes of small arrays verbatim
-    for (name, o), s in zip(W.GLOBALS, W._GLOBAL_SNAPS):
-        try:
-            _restore(o, s)
-        except Exception:  # noqa: BLE001
-            pass
-
-
-def _restore(o, s):
-    from geometer.base import Tensor
-
-    if isinstance(o, np.ndarray) and s[0] == "nd" and len(s[3]) == o.nbytes:
-        o[...] = np.frombuffer(s[3], dtype=np.dtype(s[1])).reshape(s[2])
-    elif isinstance(o, Tensor) and s[0] == "T":
-        for k, sv in s[2]:
-            cur = o.__dict__.get(k)
-            if isinstance(cur, (np.ndarray, Tensor)):
-                _restore(cur, sv)
-            elif sv[0] == "set":
-                o.__dict__[k] = set(sv[1])
+    """Put damaged module constants back so that one violation does not poison the worker."""
+    W.restore_globals()
 
 
 # ---------------------------------------------------------------------------------------------------------------------
